@@ -17,8 +17,9 @@ CONSTANTS
   MaxPend = 2
   MaxOps = 8
   AllowKF = {"KF-C01-2"}
-  KFInitOpts = TRUE
-  KFV1Hist = TRUE
+  KFInitOpts = FALSE
+  KFV1Hist = FALSE
+  PreT = {}
   Balanced = FALSE
   EmitMode = "class"
 VIEW View
